@@ -8,9 +8,16 @@ THEOREMS = ["links_symmetric", "links_point_to_existing", "link_buckets_sorted",
             "failed_tx_changes_nothing", "rc_agree", "rc_zero_removes", "rc_set_both_sides",
             "rc_increment_both_sides", "delete_unlinks", "delete_unlinks_reachable", "model_refines_spec",
             "self_links_symmetric", "self_setlinks_exact", "self_setlinks_missing", "self_delete_unlinks",
-            "self_delete_unlinks_reachable"]
+            "self_delete_unlinks_reachable",
+            # every schema (C05/Schema.lean): which stores declare which collections, child stores included
+            "schema_collection_is_two_store_model", "schema_collection_refines_spec", "schema_self_collection_is_self_model", "schema_coherent",
+            "schema_links_symmetric", "schema_self_links_symmetric", "schema_links_point_to_existing",
+            "schema_rc_agree", "schema_setlinks_exact", "schema_setlinks_missing", "schema_delete_unlinks",
+            "schema_delete_unlinks_rc", "schema_delete_succeeds_iff", "schema_delete_failure_changes_nothing"]
 
 LIST_FIELDS = {"cl": [3], "u": [3], "al": [3], "rl": [3], "sl": [3]}
+G_LIST_FIELDS = {"cl": [4], "u": [4], "al": [4], "rl": [4], "sl": [4]}
+G_STORE_OPS = ("c", "cl", "u", "d")
 
 
 def _unhex(w):
@@ -32,6 +39,12 @@ def normalise(impl):
 
 def nontrivial(case, impl):
     # non-trivial: some committed state of the history holds at least one link or count
+    if case.startswith("G "):
+        for tx in impl.split(" "):
+            p = tx.split("|")
+            if len(p) == 3 and "#D" in p[2] and "^" in p[2].split("#D", 1)[1]:
+                return case
+        return None
     empty = "[]" if case.startswith("S ") else "[][]"
     for tx in impl.split(" "):
         p = tx.split("|")
@@ -44,12 +57,39 @@ def nontrivial(case, impl):
 
 def _head(case):
     """number of leading fields before the transactions: kind + pools"""
-    return 2 if case.startswith("S ") else 3
+    return 2 if case.startswith("S ") else 4 if case.startswith("G ") else 3
 
 
 def histogram(case, impl, h):
     f = case.split(" ")
     h["kind:" + f[0]] = h.get("kind:" + f[0], 0) + 1
+    if f[0] == "G":
+        colls = [] if f[1] == "-" else f[1].split(",")
+        h[f"schema-collections:{min(len(colls), 5)}"] = h.get(f"schema-collections:{min(len(colls), 5)}", 0) + 1
+        kinds = {c[0] for c in colls}
+        tags = []
+        # per store (A, B roots; a, b child stores): which registries are filled
+        plain, rc = set(), set()
+        for c in colls:
+            if c[0] == "s":
+                plain.add((c[1].lower() if c[2] == "1" else c[1]))
+            else:
+                ends = ("a" if c[1] == "1" else "A", "b" if c[2] == "1" else "B")
+                (plain if c[0] == "p" else rc).update(ends)
+        if rc - plain:
+            tags.append("schema:a-store-has-ref-counted-but-no-plain-collection")
+        if plain - rc:
+            tags.append("schema:a-store-has-plain-but-no-ref-counted-collection")
+        if plain & rc:
+            tags.append("schema:a-store-has-both-kinds")
+        if any((c[0] in "pr" and "1" in c[1:]) or (c[0] == "s" and c[2] == "1") for c in colls):
+            tags.append("schema:collection-on-a-child-store")
+        if "s" in kinds:
+            tags.append("schema:self-referential-collection")
+        if len([c for c in colls if c[0] == "p"]) > 1 or len([c for c in colls if c[0] == "r"]) > 1:
+            tags.append("schema:several-collections-of-one-kind")
+        for t in tags:
+            h[t] = h.get(t, 0) + 1
     ntx = len(f) - _head(case)
     h[f"transactions:{min(ntx, 9)}"] = h.get(f"transactions:{min(ntx, 9)}", 0) + 1
     for tx in f[_head(case):]:
@@ -76,16 +116,26 @@ def describe(case, impl, model, spec):
         for i, y in enumerate(x[1:], 1):
             if y in ("A", "B") and i == 1 and hd == 3:
                 out.append(y)
-            elif x[0] == "set" and i == 4 or x[0] == "u" and i == 4:
+            elif hd == 4 and (i == 1 or (x[0] not in G_STORE_OPS and i == 2) or (x[0] in ("cl", "u") and i == 3)):
+                out.append(y)
+            elif hd != 4 and (x[0] == "set" and i == 4 or x[0] == "u" and i == 4):
+                out.append(y)
+            elif hd == 4 and (x[0] == "set" and i == 5 or x[0] == "u" and i == 5):
                 out.append(y)
             else:
                 out.append(",".join(_unhex(k) for k in y.split(",")) if y else "")
         return ":".join(out)
-    kind = {"H": "history (two stores A <-> B)", "X": "history outside the vocabulary (two stores; compared with the model only)",
+    kind = {"G": "history over the schema " + (f[1] if len(f) > 1 else "") +
+                 " (p/r<ca><cb>: plain / ref-counted collection between store A or its child a and store B or its child b; s<F><c>: self-referential collection)",
+            "H": "history (two stores A <-> B)", "X": "history outside the vocabulary (two stores; compared with the model only)",
             "S": "history (one store linked with itself through the same set symbol)"}.get(f[0], f[0])
     d = {"kind": kind, "transactions": [[op(o) for o in tx.split(";")] for tx in f[hd:]],
          "impl": impl, "model": model, "spec": spec, "case": case}
-    if hd == 3:
+    if hd == 4:
+        d["schema"] = f[1]
+        d["poolA"] = [_unhex(k) for k in f[2].split(",")] if f[2] else []
+        d["poolB"] = [_unhex(k) for k in f[3].split(",")] if f[3] else []
+    elif hd == 3:
         d["poolA"] = [_unhex(k) for k in f[1].split(",")] if f[1] else []
         d["poolB"] = [_unhex(k) for k in f[2].split(",")] if f[2] else []
     else:
@@ -107,14 +157,67 @@ RULE = ("each case is a history of Db.Update transactions over two real stores w
         "counts, counts >= 2^31, 2^31 increments' worth of weight) are compared with the model only; (4) S-cases: "
         "ONE store whose set symbol is linked with itself (AddLinkCollection(peers, peers)), pools of 2-5 ids, "
         "random Create/Create-with-links/DeleteById/AddLinks/RemoveLinks/SetLinks/AddLink/RemoveLink/GetLinks with "
-        "self links, several operations per transaction (400 quick / 8000 thorough). After every "
+        "self links, several operations per transaction (400 quick / 8000 thorough); (5) G-cases: the SCHEMA is part "
+        "of the case - two root stores A, B and a child store of each (a, b); any list of declared collections, each "
+        "registered on both of its stores: plain (AddLinkCollection) or ref-counted (AddRefCountedLinkCollection) between "
+        "A-or-a and B-or-b, or self-referential on any of the four stores - so a store may have no collection, only plain, "
+        "only ref-counted, both, several, on the root or on the child store. Delete stream, bounded-exhaustive over "
+        "the schemas: every multiset of <= 2 (quick, 90) / <= 3 (thorough, 454) of the 12 collection kinds x DeleteById "
+        "through each of the 4 stores, after every collection got links / counts (incl. a self link), then re-creation; "
+        "random histories (Create / Create-with-SetLinkedIds / Update / DeleteById through root or child stores, all "
+        "collection operations on any declared collection) per small schema (1 quick / 12 thorough each) plus random "
+        "schemas of 1-5 collections (700 / 4000); compared per transaction: presence in all four stores, the read API "
+        "of both ends of every collection, the schema-aware dump. After every "
         "transaction GetLinks/IterateLinks/IsLinked/GetLinkCount(s)/rc IterateLinks (both directions) for every pool "
         "entity on both sides and the canonicalised boltz.Traverse dump are compared; after a failing operation "
         "the same view of the uncommitted state is compared with the model. non-trivial = some committed state "
         "holds a link or a count; distinct = distinct case lines")
 
 
+def _g_coll_field(op):
+    """index of the ':'-field of a G-case operation that names a collection, or None"""
+    x = op.split(":")
+    if x[0] in ("cl", "u"):
+        return 3
+    if x[0] in ("c", "d"):
+        return None
+    return 1
+
+
+def g_candidates(case):
+    """G-cases: transactions / operations / keys / pool ids as usual (the schema field is kept), plus
+    dropping a declared collection that no operation uses (later collections are renumbered)"""
+    f = case.split(" ")
+    out = [c for c in flow.history_candidates(case, lambda opc: G_LIST_FIELDS.get(opc, []), head_len=4)
+           if c.split(" ")[1] == f[1] and c.split(" ")[2] and c.split(" ")[3]]
+    colls = [] if f[1] == "-" else f[1].split(",")
+    ops = [o for tx in f[4:] for o in tx.split(";")]
+    used = set()
+    for o in ops:
+        i = _g_coll_field(o)
+        if i is not None:
+            used.add(int(o.split(":")[i]))
+    for j in range(len(colls)):
+        if j in used:
+            continue
+        rest = colls[:j] + colls[j + 1:]
+
+        def renum(o):
+            i = _g_coll_field(o)
+            if i is None:
+                return o
+            x = o.split(":")
+            if int(x[i]) > j:
+                x[i] = str(int(x[i]) - 1)
+            return ":".join(x)
+        txs = [";".join(renum(o) for o in tx.split(";")) for tx in f[4:]]
+        out.append(" ".join([f[0], ",".join(rest) if rest else "-", f[2], f[3]] + txs))
+    return out
+
+
 def candidates(case):
+    if case.startswith("G "):
+        return g_candidates(case)
     if case.startswith("S "):
         # one pool, no side field: key lists sit one field earlier
         return flow.history_candidates(case, lambda opc: [2] if opc in ("cl", "al", "rl", "sl") else [], head_len=2)
@@ -128,6 +231,8 @@ def run(ctx, replay_cases=None):
         "whether an empty link field bucket exists is not modelled (empty buckets are dropped from the dump)",
         "SetLinkCount arguments are >= 0 and the sum of SetLinkCount arguments and increments stays < 2^31 in the property's vocabulary (hypothesis InVocab of rc_agree); histories outside are compared with the model (Int32 wrap) only",
         "failing operations are followed by a rollback of their transaction (Db.Update); the model also reproduces the uncommitted partial writes",
+        "extended child stores (fix c784f90): EntityDeleted returns nil when the collection's store has no entity bucket, so no modelled function depends on the Extended() flag; the harness wires it and the correspondence checks that",
+        "schema-parametrised cases (G-cases): modelled by C05/Schema.lean (entity buckets of four stores, one slot of the two-store / self model per declared collection, Create/Update/DeleteById/cleanupLinks over the registries); its spec is C05/SchemaSpec.lean (one relation / count map per collection, delete removes every pair mentioning the id from every collection of the family); child stores are plain (non-extended) with a ChildStoreUpdateHandler whose mapper declines updates; G histories stay inside the count vocabulary",
         "self-referential wiring (S-cases, one store linked with itself through the same set symbol): modelled by C05/SelfW.lean (same state and bucket primitives, one side; EntityDeleted = fold over the collected keys, as repaired in b23d525); its spec line is the same proved model in the spec's normalised form; ref-counted self-referential collections are not in the harness universe",
     ]
     return flow.flow(ctx, "c05", MODULE, THEOREMS, MATCHERS, normalise=normalise, nontrivial=nontrivial,
